@@ -42,4 +42,11 @@ impl SharedOneshot {
                 r is Ok <==> final(w).slots[old(self).slot()].ok,
                 final(self).slot() == old(self).slot(), final(self).consumed(),
     { unimplemented!() }
+    // awaiting the Shared handle by value (`self.running.await`): the same, the handle is consumed by the move
+    #[verifier::external_body]
+    pub fn await_(self, Tracked(w): Tracked<&mut World>) -> (r: Result<(), Canceled>)
+        requires !self.consumed(),                                                                                           // @ob shared.no-poll-after-completion C14,C04
+        ensures others_ran(old(w), final(w)), final(w).slots.dom().contains(self.slot()), final(w).slots[self.slot()].resolved,
+                r is Ok <==> final(w).slots[self.slot()].ok,
+    { unimplemented!() }
 }
